@@ -9,6 +9,7 @@ from pgverif.mon.gss import GssMonitor
 from pgverif.mon.lr import Diverged, LRMonitor
 from pgverif.props import glrwork
 from pgverif.props.c01 import leaves_read_input  # noqa: F401
+from pgverif.props.c08 import COMMENT_FILLERS, COMMENT_LAYOUT, COMMENT_TERMS
 
 ID = "C11"
 LEVEL = "exploration"
@@ -48,6 +49,7 @@ def required(tier):
         "sentence.same_as_without_recovery": 2000,
         "trees_checked": 3000,
         "errors.multiple": 300,
+        "grammars.comment_layout": 50,
     }
 
 
@@ -135,7 +137,13 @@ def run(ctx):
 
 def one_grammar(ctx, lmon, rmon, g, alphabet, maxlen):
     rng = ctx.rng
-    text = g.text(inline=rng.random() < 0.3)
+    comments = rng.random() < 0.25
+    if comments:
+        # LAYOUT rule whose items span several tokens (nested comments); corruption also hits the comments
+        text = g.text(extra_rules=COMMENT_LAYOUT.strip(), extra_terms=COMMENT_TERMS)
+        ctx.count("grammars.comment_layout")
+    else:
+        text = g.text(inline=rng.random() < 0.3)
     if len(alphabet) >= 3 and maxlen > 3:
         maxlen = 3
     sentences = [w for w in cfg.all_strings(alphabet, maxlen) if cfg.Chart(g, w, skip=cfg.skip_none).is_sentence()]
@@ -149,8 +157,22 @@ def one_grammar(ctx, lmon, rmon, g, alphabet, maxlen):
     inputs = sorted(inputs)
     if len(inputs) > 80:
         inputs = rng.sample(inputs, 80)
-    inputs = [glrwork.relayout(w, rng) if rng.random() < 0.3 else w for w in inputs]
-    case0 = {"grammar": text, "g": g.to_json()}
+    if comments:
+        def spoil(t):
+            # corrupt inside / around comments: lose a terminator, inject junk
+            k = rng.randrange(4)
+            if k == 0:
+                return t.replace("*/", "", 1)
+            if k == 1:
+                return t.replace("/*", "/* z */ # /*", 1)
+            if k == 2:
+                return t.replace("*/", "*/ z", 1)
+            return t
+
+        inputs = [spoil(glrwork.relayout(w, rng, COMMENT_FILLERS)) if rng.random() < 0.7 else w for w in inputs]
+    else:
+        inputs = [glrwork.relayout(w, rng) if rng.random() < 0.3 else w for w in inputs]
+    case0 = {"grammar": text, "g": g.to_json(), "comments": comments}
     for kind in ("LR", "GLR"):
         for sname in ("default", "skip", "inject"):
             if sname != "default" and rng.random() < 0.5:
@@ -239,6 +261,9 @@ def check(ctx, lmon, rmon, g, pg, pkeys, parser, plain, kind, sname, det, case, 
     # --- same as without recovery when the plain parser accepts -------------
     if kind == "LR":
         pk, pv = pgx.outcome(plain.parse, inp)
+        if pk == "syntax" and not errors:
+            ctx.violation("result-without-error-on-rejected-input", case, "the same parser without recovery raises SyntaxError at %s but with recovery a result came back and no error was recorded" % pv.location.start_position)
+            return
         if pk == "ret":
             ctx.count("sentence.same_as_without_recovery")
             if errors:
@@ -249,6 +274,9 @@ def check(ctx, lmon, rmon, g, pg, pkeys, parser, plain, kind, sname, det, case, 
                 return
     else:
         po = glrobs.parse_glr(plain, inp)
+        if po.kind == "syntax" and not errors:
+            ctx.violation("result-without-error-on-rejected-input", case, "GLR without recovery raises SyntaxError at %s but with recovery a forest came back and no error was recorded" % po.err.location.start_position)
+            return
         if po.kind == "forest":
             ctx.count("sentence.same_as_without_recovery")
             if errors:
@@ -294,6 +322,29 @@ def check(ctx, lmon, rmon, g, pg, pkeys, parser, plain, kind, sname, det, case, 
             for s, en in spans:
                 for i in range(s, en):
                     cover[i] += 1
+            if case.get("comments"):
+                # with a LAYOUT rule: what lies between leaves / spans must be valid layout
+                i = 0
+                while i < n:
+                    if cover[i] > 1:
+                        ctx.violation("character-not-covered-exactly-once", case, "character %r at %d is covered %d times" % (inp[i], i, cover[i]))
+                        return
+                    if cover[i] == 1:
+                        i += 1
+                        continue
+                    j = i
+                    while j < n and cover[j] == 0:
+                        j += 1
+                    gap = inp[i:j]
+                    if cfg.skip_comments(gap, 0) != len(gap):
+                        ctx.violation(
+                            "non-layout-text-in-no-leaf-and-no-span",
+                            case,
+                            "input[%d:%d]=%r is neither in a leaf nor in a reported error span and is not layout; leaves %s, spans %s" % (i, j, gap, [(l.start_position, l.end_position) for l in leaves], spans),
+                        )
+                        return
+                    i = j
+                continue
             for i, ch in enumerate(inp):
                 if ch in cfg.WS:
                     continue
